@@ -101,6 +101,7 @@ def lemma_map_extents(ctx):
         en = {n: i for i, n in enumerate(ctx.structs()["FiemapExtent"])}
         start = req.fields[fi["fm_start"]]
         count = req.fields[fi["fm_extent_count"]]
+        length = req.fields[fi["fm_length"]]
         npage = st.ghost.get("pages", 0)
         outs = []
         if npage >= pages:
@@ -130,9 +131,9 @@ def lemma_map_extents(ctx):
                     e.fields[en["fe_length"]] = ln
                     e.fields[en["fe_flags"]] = IntV(z3.If(last, 1, 0) + z3.If(shared, 0x2000, 0), "u32")
                 s2.ghost["pages"] = s2.ghost.get("pages", 0) + 1
-            outs.append(Outcome(ok(BoolV(True)), conds, events=[Event("fiemap", [start, count], exts)], effect=eff))
-        outs.append(Outcome(ok(BoolV(False)), events=[Event("fiemap", [start, count], "unsupported")]))
-        outs.append(Outcome(err("errors::Error"), events=[Event("fiemap", [start, count], "err")]))
+            outs.append(Outcome(ok(BoolV(True)), conds, events=[Event("fiemap", [start, count, length], exts)], effect=eff))
+        outs.append(Outcome(ok(BoolV(False)), events=[Event("fiemap", [start, count, length], "unsupported")]))
+        outs.append(Outcome(err("errors::Error"), events=[Event("fiemap", [start, count, length], "err")]))
         return outs
     eng.add_summary(r"^(linux::)?fiemap$", s_fiemap)
     fn = fn_named(eng.funcs, "map_extents")
@@ -153,6 +154,8 @@ def lemma_map_extents(ctx):
             continue
         for i, c in enumerate(calls):
             ctx.lemma(eng, "C19: every FIEMAP request offers the whole 32-entry page", p.pc, c.args[1].t == 32)
+            ctx.lemma(eng, "C01/C11/C19: every FIEMAP request covers the file from fm_start to the largest offset (no window that hides later extents)", p.pc,
+                      c.args[0].t + c.args[2].t >= OFF_MAX)
             if i == 0:
                 ctx.lemma(eng, "C01/C19: the first FIEMAP request starts at offset 0", p.pc, c.args[0].t == 0)
             else:
@@ -716,6 +719,11 @@ def lemma_metadata_helpers(ctx):
         xa = [e for e in p.trace if e.name == "copy_xattr"]
         if len(xa) != 1 or xa[0].args != ["infd", "outfd"]:
             ctx.fail("C10: extended attributes are copied from the source to the destination", str(trace_names(p)))
+        if len(xa) == 1 and len(sp) == 1:
+            names = [e.name for e in p.trace]
+            (ctx.passed if names.index("copy_xattr") < names.index("set_permissions") else ctx.fail)(
+                "C10: user xattrs are written before the source's mode is applied (fsetxattr(user.*) needs write permission by mode: after fchmod to a read-only "
+                "mode every xattr of an unprivileged copy is refused, with only a warning)", str(trace_names(p)))
         pm = sp[0].args[1] if len(sp) == 1 else None
         src_mode = None
         for e in p.trace:
